@@ -24,6 +24,16 @@ namespace
     {
         return std::make_shared<d_hashmap>();
     }
+    // Keys are captured by value: an array used as key is copied, so that changing the array later
+    // neither moves the entry away from its bucket nor changes the key.
+    value capture_key(value::cref key)
+    {
+        if (key.is<t_array>())
+        {
+            return value(key.data<d_array>()->copy_deep());
+        }
+        return key;
+    }
     value createhashmapfromarray_array(runtime& runtime, value::cref right)
     {
         std::unordered_map<sqf::runtime::value, sqf::runtime::value> hashmap;
@@ -39,7 +49,7 @@ namespace
                     auto& key = subArr->at(0);
                     auto& value = subArr->at(1);
                     // ToDo: Check key-type matches
-                    hashmap[key] = value;
+                    hashmap[capture_key(key)] = value;
                 }
                 else
                 {
@@ -70,7 +80,7 @@ namespace
             auto& key = arr->at(0);
             auto& value = arr->at(1);
             // ToDo: Check key-type matches
-            data->map()[key] = value;
+            data->map()[capture_key(key)] = value;
         }
         else
         {
